@@ -3251,6 +3251,24 @@ class Exec:
         return result
 
     def assign(self, op, lhs, rhs, env):
+        if op == "=" and lhs[0] == "tuple":
+            # destructuring assignment `(x, y) = e;`: the right-hand side is evaluated completely, then stored component-wise
+            v = self.eval(rhs, env)
+            if not isinstance(v, Arr) or len(v.slots) != len(lhs[1]):
+                raise Unsupported("destructuring assignment: right-hand side is not a tuple of the same arity")
+            vals = [self.copy(s_.v) for s_ in v.slots]
+            for l_, x_ in zip(lhs[1], vals):
+                if l_[0] == "path" and l_[1] == ["_"]:
+                    continue
+                if l_[0] == "tuple":
+                    raise Unsupported("nested destructuring assignment")
+                slot = self.lvalue(l_, env)
+                if isinstance(slot.v, Lanes):
+                    raise Unsupported("assignment to a register whose storage is aliased by a `[u32]` view")
+                if isinstance(x_, BV) and not x_.atom:
+                    x_ = self.bind(self.hint(l_), x_)
+                slot.v = x_
+            return
         slot = self.lvalue(lhs, env)
         cur = slot.v
         if isinstance(cur, Lanes):
